@@ -446,7 +446,7 @@ class MarkdownNormalizer(Renderer):
             else:
                 # Add the newline between paragraphs. Normally this would be an empty line but
                 # within a quote block it would be the secondary prefix, like `> `.
-                result += self._second_prefix.strip() + "\n"
+                result += self._second_prefix.rstrip() + "\n"
 
         # Nothing has been emitted for this item yet: a list that is its first child must not
         # open with a separator of its own (a paragraph or other block resets this flag).
